@@ -4,6 +4,7 @@ import (
 	"context"
 	"encoding/base64"
 	"encoding/json"
+	"errors"
 	"fmt"
 	"net/http"
 	"reflect"
@@ -52,6 +53,9 @@ func UnmarshalCursor[Options any](v string, modifiers ...func(query *InitialPagi
 
 	if err := json.Unmarshal(res, &q); err != nil {
 		return nil, err
+	}
+	if q == nil { // the JSON document `null` resets the interface value
+		return nil, errors.New("invalid cursor: not an object")
 	}
 
 	var root *InitialPaginatedQuery[Options]
